@@ -298,6 +298,7 @@ def own(ctx: Any) -> List[Ob]:
 
 PREDICATE_BINDINGS = {
     'zeroconf._cache.DNSCache.async_expire': ({'is_expired'}, 'purge removes exactly the fully elapsed records'),
+    'zeroconf._cache.DNSCache.async_mark_unique_records_older_than_1s_to_expire': ({'is_expired'}, 'the flush mark leaves alone what has run out or runs out within the second (it only ever shortens a lifetime)'),
     'zeroconf._services.info.ServiceInfo._process_record_threadsafe': ({'is_expired'}, 'lookups reject expired records'),
     'zeroconf._services.info.ServiceInfo._get_ip_addresses_from_cache_lifo': ({'is_expired'}, 'addresses loaded from the cache are unexpired'),
     'zeroconf._handlers.record_manager.RecordManager.async_updates_from_response': ({'is_expired'}, 'ingestion classifies goodbyes by full expiry'),
@@ -484,6 +485,12 @@ def refresh(ctx: Any) -> List[Ob]:
     # produced nothing else (every record a goodbye for something never cached): rows of the post-loop effect table of C06.ORDER
     from .c06 import ingest_anatomy, order as _order
 
+    from .c06 import floorflush as _floorflush
+
+    for o in _floorflush.fn(ctx):
+        if o.construct.startswith('age='):
+            o.rule = 'C05.REFRESH'
+            obs.append(o)
     uq = set(ingest_anatomy(ctx)['unique'])
     for o in _order.fn(ctx):
         if o.construct.startswith('collections non-empty') and any(repr(u) in o.construct for u in uq):
